@@ -125,14 +125,18 @@ Fixpoint latest (l : list Z) : option Z :=
 (* entries = the DataSet lines of the pvd file: (timestep attribute, file).  The timestep
    attribute is whatever was passed as write_pvd(times=...) (physical times; by default the
    time-step indices), held as an integer in some fixed unit.  The files imported are those
-   LISTED with the latest timestep; the returned time index is the numeric suffix of the
-   first of them (as repaired). *)
+   LISTED with the latest timestep; the returned time index is the largest numeric
+   suffix among them (as repaired; several steps may have been written at the latest time,
+   e.g. by a stationary model). *)
 Definition restart_files {F} (suffix : F -> Z) (entries : list (Z * F)) : option (Z * list F) :=
   match latest (map fst entries) with
   | None => None
   | Some m =>
       let fs := map snd (filter (fun e => Z.eqb (fst e) m) entries) in
-      Some (match fs with f :: _ => suffix f | [] => 0%Z end, fs)
+      Some (match fs with
+            | f :: r => fold_right (fun g m => Z.max (suffix g) m) (suffix f) r
+            | [] => 0%Z
+            end, fs)
   end.
 
 (* ---- time information ---------------------------------------------------------- *)
